@@ -622,7 +622,13 @@ def native_replay(g, gen, scratch, trace, extra_defs=()):
     if r["rc"] == 1 and "REPLAY-FAIL" in r["err"]:
         return True, text
     if r["rc"] < 0 or "AddressSanitizer" in r["err"] or "runtime error:" in r["err"]:
-        return True, text
+        # a sanitizer report / signal counts as a reproduction only if it happened in repository code
+        # (a crash inside the harness itself, e.g. on a value the replay could not feed, is not one)
+        frames = re.findall(r"#\d+ 0x[0-9a-f]+ in \S+ (\S+?):\d+", r["err"])[:6]
+        in_repo_code = any(f.startswith(REPO + "/") for f in frames) or any((REPO + "/") in l for l in r["err"].splitlines() if "runtime error:" in l)
+        if in_repo_code or (r["rc"] < 0 and not frames):
+            return True, text
+        return None, text + "\n(sanitizer report outside the repository code: not counted as a reproduction)"
     if r["rc"] != 0:
         return None, text
     return False, text
